@@ -371,16 +371,62 @@ class _SliceCall(ast.NodeTransformer):
         self.generic_visit(n)
         c = n.slice
         if isinstance(c, ast.Call) and isinstance(c.func, ast.Name) and c.func.id == 'slice' and not c.keywords \
-                and 1 <= len(c.args) <= 3 and all(isinstance(a, ast.Constant) for a in c.args):
+                and 1 <= len(c.args) <= 3 and all(isinstance(a, (ast.Constant, ast.Name)) for a in c.args):
             vals = list(c.args)
             if len(vals) == 1:
                 vals = [ast.Constant(value=None), vals[0], ast.Constant(value=None)]
             elif len(vals) == 2:
                 vals = vals + [ast.Constant(value=None)]
-            parts = [None if v.value is None else v for v in vals]
+            parts = [None if (isinstance(v, ast.Constant) and v.value is None) else v for v in vals]
             n.slice = ast.copy_location(ast.Slice(lower=parts[0], upper=parts[1], step=parts[2]), c)
             self.changed = True
         return n
+
+
+def _slice_locals(fn):
+    """`s = slice(a, b, c)` bound once, with constant / plain-name arguments, and read only as a subscript `x[s]`: each use becomes
+    `x[slice(a, b, c)]` (then slice syntax) and the binding goes.  The argument names must not be re-bound inside the function
+    other than as loop targets enclosing both the binding and its uses (checked coarsely: they are never assigned by a plain
+    statement)."""
+    import copy
+    assigns = {}
+    stores = {}
+    for n in ast.walk(fn):
+        if isinstance(n, ast.Name) and isinstance(n.ctx, ast.Store):
+            stores[n.id] = stores.get(n.id, 0) + 1
+        if isinstance(n, ast.Assign) and len(n.targets) == 1 and isinstance(n.targets[0], ast.Name) and isinstance(n.value, ast.Call) \
+                and isinstance(n.value.func, ast.Name) and n.value.func.id == 'slice' and not n.value.keywords \
+                and 1 <= len(n.value.args) <= 3 and all(isinstance(a, (ast.Constant, ast.Name)) for a in n.value.args):
+            assigns.setdefault(n.targets[0].id, []).append(n)
+    plain = set()
+    for n in ast.walk(fn):
+        if isinstance(n, (ast.Assign, ast.AugAssign, ast.AnnAssign)):
+            for t in (n.targets if isinstance(n, ast.Assign) else [n.target]):
+                for x in ast.walk(t):
+                    if isinstance(x, ast.Name):
+                        plain.add(x.id)
+    done = False
+    for name, ass in assigns.items():
+        if len(ass) != 1 or stores.get(name) != 1:
+            continue
+        call = ass[0].value
+        if any(isinstance(a, ast.Name) and a.id in plain for a in call.args):
+            continue
+        loads = [x for x in ast.walk(fn) if isinstance(x, ast.Name) and x.id == name and isinstance(x.ctx, ast.Load)]
+        subs = [x for x in ast.walk(fn) if isinstance(x, ast.Subscript) and isinstance(x.slice, ast.Name) and x.slice.id == name]
+        if not loads or len(loads) != len(subs):
+            continue
+        for x in subs:
+            x.slice = copy.deepcopy(call)
+        for parent in ast.walk(fn):
+            for fld in ('body', 'orelse', 'finalbody'):
+                lst = getattr(parent, fld, None)
+                if isinstance(lst, list) and ass[0] in lst:
+                    lst.remove(ass[0])
+                    if not lst:
+                        lst.append(ast.copy_location(ast.Pass(), ass[0]))
+        done = True
+    return done
 
 
 # ---------------------------------------------------------------------------------------------- annotations
@@ -2108,6 +2154,9 @@ def simple_passes(modules, log):
                         changed = True
                     else:
                         break
+            if _slice_locals(fn):
+                log.append('slice objects held in locals written into their subscripts in %s' % q)
+                changed = True
             sc = _SliceCall()
             sc.visit(fn)
             if sc.changed:
